@@ -277,6 +277,33 @@ def run_case(case, ctx):
         except (R.RefDomainError, ZeroDivisionError, ValueError, OverflowError):
           pass
     ctx.nontrivial(any_nz and (len(set(nzp)) >= 2 or (len(p) <= 1) or name == "polynomial"))
+  # ---- the same vectors again, separation by separation (every vector at one r, then the next r): what a form keeps
+  # from its previous call (powers of r, a last result) must not leak into the call for another parameter vector
+  if name != "buck4":
+    order = sorted(range(len(vecs)), key=lambda i_: (len(vecs[i_]), i_))
+    facs = [getattr(pfm, name)(*vecs[i_]) for i_ in order]
+    for r in rs[:6]:
+      rr = R.F(r)
+      for i_, fac in zip(order, facs):
+        p = vecs[i_]
+        node = {"k": "form", "name": name, "p": p}
+        try:
+          ref = M.value(node, rr)
+          mag = M.mag(node, rr)
+          sc = R.scale(lambda x: M.value(node, x, rr), rr)
+          if abs(ref) > mp.mpf("1e200"):
+            continue
+          got2 = (getattr(pfn, name)(r, *p), fac(r))
+        except (R.RefDomainError, ZeroDivisionError, ValueError, OverflowError):
+          continue
+        for v in got2:
+          ctx.count("values_compared")
+          ok, diff, tol = R.close(v, ref, sc=sc, mag=mag)
+          if not ok:
+            ctx.violation("value", "%s%r at r=%r evaluated right after another parameter vector at the same r: got %r, documented formula gives %s" % (
+              name, p, r, v, mp.nstr(ref, 17)), what="value", form=name, route="same_r_sequence")
+            break
+    ctx.cls("same_separation_sequence")
   if _contracts:
     ctx.count("contract_functionfactory", _contracts.counts.get("functionfactory", 0) - before)
     for cname, msg, _ in _contracts.failures[nf0:]:
